@@ -1,9 +1,10 @@
 // Harness for C04 (untrusted container input never crashes, hangs or balloons memory).
-//   c04 corr   -seed S -n N -exh L : R (FixedSliceReader op histories), B (box trees on both decode paths) and
-//                                    A (shape lists x decode options x Info x encoders) cases with the
-//                                    implementation's observables, plus FAIL lines for direct property failures
-//   c04 search -seed S -n N        : structured mutation fuzzing of the repo's testdata (files and boxes)
-//   c04 worker                     : isolated executor of the hostile calls (spawned by corr/search)
+//
+//	c04 corr   -seed S -n N -exh L : R (FixedSliceReader op histories), B (box trees on both decode paths) and
+//	                                 A (shape lists x decode options x Info x encoders) cases with the
+//	                                 implementation's observables, plus FAIL lines for direct property failures
+//	c04 search -seed S -n N        : structured mutation fuzzing of the repo's testdata (files and boxes)
+//	c04 worker                     : isolated executor of the hostile calls (spawned by corr/search)
 package main
 
 import (
